@@ -47,6 +47,8 @@ def extract(ctx):
 def decode(p):
     f = p.split(" ")
     try:
+        if f[0] == "realbin":
+            return {"real_interpreter_binary": "hypothesis of scan_finds_archive checked on the CLI built from the tree under test; started unpacked"}
         if f[0] == "out":
             return {"after_the_scan": f[1], "binary_size": int(f[2]), "filler": f[3], "entry_number": int(f[4])}
         if f[0] == "rt":
@@ -115,9 +117,12 @@ SPEC = dict(
         "a project with a root file named .ecalsrc-entry, or containing a symbolic link to a directory / a dangling link, is REFUSED by the pack "
         "tool with an error (spec decision: no executable is better than one that runs an impostor or silently lacks files); the property is "
         "about the projects the tool accepts",
-        "the hypothesis 'no marker occurrence starts inside the interpreter binary' is checked on the one CLI binary built in the run "
-        "(srcmarker=0; this GOOS/GOARCH), not proved for every build",
-        "Windows: the '.exe' suffix branch of RunPackedBinary is not exercised (Linux only)",
+        "the hypothesis 'no marker occurrence starts inside the interpreter binary' (hbin) is CHECKED AT RUN TIME on the real CLI binary built "
+        "from the tree under test (case realbin: first occurrence in bin++marker is at |bin|; srcmarker=0 in the process cases) - this "
+        "GOOS/GOARCH and build; markerBuiltByCall is the syntactic reason why it holds",
+        "Windows: only the suffix logic is exercised (file app.exe started as app, in-process, on Linux); no Windows build is run",
+        "short / interrupted reads (EINTR-style partial reads) are covered by the theorems (every read schedule rd: each read returns 1..len(p) "
+        "bytes) but cannot be provoked on a regular file, so they are proved and executed in the model only (two irregular schedules per small case)",
         "an I/O error other than EOF during the scan ends the loop silently = fall through to the normal command line (not modelled, not injected)",
         "the scan is independent of the project tree (consequence of archive_exact: the archive is opaque bytes after the marker); the size sweep "
         "therefore uses one small tree, other trees run on boundary sizes only",
